@@ -403,7 +403,7 @@ func TestC06(t *testing.T) {
 		"float64 reference of the ONNX equations (iofc / zrh packing, Wb then Rb, P=[i,o,f]), tolerance 1e-4 absolute (measured agreement 1.6e-7, DESIGN.md 1.6); split relation to 1e-6")
 	defer reportKnownFindings("C06")
 
-	check(t, "recurrent", 3000, 20000, func(rt *rapid.T) {
+	check(t, "recurrent", 10000, 30000, func(rt *rapid.T) {
 		c := genRnnCase(rt)
 		node := c.node()
 		res := runOp(c.kind, node, c.inputs())
